@@ -1,2 +1,47 @@
-/-! Line-protocol driver stub for the schema cluster (to be written by the cluster owner). -/
-def main : IO Unit := IO.println "bad-op"
+import J5V.Go.Hex
+import J5V.Schema.Wire
+/-!
+Line-protocol driver of the schema cluster (core only). One op per input line, one result per
+output line; see /verif/harness/PROTOCOL-schema.md.
+
+* `loop <mode> <src> <S1 dump…>`   — export, import, link, export again on the dumped schema set
+* `reflect <hex> <summary…>`       — the Reader model on the descriptor summary
+-/
+open J5V.Go J5V.Schema J5V.Schema.Wire
+
+def dropEmpty (api : Api) : Api := api.filter fun (_, ss) => !ss.isEmpty
+
+def stepLoop (toks : List String) : String :=
+  match toks with
+  | ["nolink"] => "nolink"
+  | ["reflect-err"] => "reflect-err"
+  | _ =>
+    match parseSet toks with
+    | none => "bad-op"
+    | some env1 =>
+      let e1 := exportEnv env1
+      let e1dump := prApi e1
+      match packageSetFromSourceAPI e1 with
+      | .panic _ => "panic"
+      | .err _ => "ok " ++ e1dump ++ " | import-err"
+      | .ok env2 =>
+        let e2dump := prApi (exportEnv env2)
+        let tail := if e2dump == e1dump then "same" else "diff " ++ e2dump
+        "ok " ++ e1dump ++ " | " ++ prSet env2 ++ " | " ++ tail
+
+def step (line : String) : String :=
+  match (line.trimAscii.toString.splitOn " ") with
+  | "loop" :: _mode :: _src :: rest => stepLoop rest
+  | "reflect" :: _ => "skip"
+  | _ => "bad-op"
+
+partial def loop (h : IO.FS.Stream) (out : IO.FS.Stream) : IO Unit := do
+  let line ← h.getLine
+  if line.isEmpty then return ()
+  out.putStrLn (step line)
+  loop h out
+
+def main : IO Unit := do
+  let out ← IO.getStdout
+  loop (← IO.getStdin) out
+  out.flush
